@@ -32,7 +32,8 @@ TOL = 1e-6
 
 
 def BOUNDS(tier):
-    return {"densities": [1, 2, 3], "stretch_levels": [0.8, 1.2, 1.5], "ramp_subdivisions": [1, 2, 3, 5], "affine_maps": 3}
+    return {"densities": [1, 2, 3], "stretch_levels": [0.8, 1.2, 1.5], "ramp_subdivisions": [1, 2, 3, 5], "affine_maps": 3,
+            "cyclic_histories": [[0.15, 0.3, 0.15, 0.0, -0.1], [0.2, 0.0, 0.2], [-0.1, 0.0, 0.0, 0.25]], "axes": "every axis / ordered axis pair on a 1 x 1.5 x 2 box (1.5 x 0.75 in 2d), symmetric and two-sided"}
 
 
 FAM3D = ["hexahedron", "hexahedron20", "hexahedron27", "tetra", "tetra10", "tetra-mini", "lagrange3o2"]
